@@ -204,6 +204,7 @@ class VfsProbe(Stream):
 
     def generate(self, rng):
         spec = PG.gen_spec(rng, behaviours=False, allow_pyproject=False)
+        spec.pop("latin1", None)        # the probes observe the script from inside: it has to run in-process
         spec.update(style="kwargs")
         pkg = PG.pkg_dir(spec)
         ops = []
@@ -451,6 +452,16 @@ class DeclaredVsExtracted(Stream):
             b.update(style="pyproject", broken_backend=True)
         elif rng.random() < 0.25:
             a["prelude"] = rng.sample(["spawn", "print", "chdir-here", "exists", "listdir", "warn", "import-helper", "syspath-src"], rng.randint(1, 2))
+        if rng.random() < 0.2:
+            # the two projects are two builds of one release (same name, same version, hence the same archive file name, in
+            # two directories) that declare different things
+            b["name"], b["version"] = a["name"], a["version"]
+            st = rng.choice(["cfg", "cfg", "mixed", "kwargs"])
+            a["style"] = st
+            b["style"] = st
+            b.pop("broken_backend", None)
+            if sorted(b["requires"]) == sorted(a["requires"]):
+                b["requires"] = list(a["requires"]) + ["only-in-the-other-build"]
         return {"first": b, "spec": a, "cwd": rng.choice(["neutral", "project", "parent"])}
 
     def _extract(self, spec, root, pk, cwd_kind, keep_state=None):
@@ -517,6 +528,8 @@ class DeclaredVsExtracted(Stream):
             fl.append("requirement-conditional-on-missing-path")
         if "spawn-uncaught" in case["first"].get("prelude", []):
             fl.append("first-project-falls-back-after-importing-helper")
+        if case["first"]["name"] == s["name"] and case["first"]["version"] == s["version"]:
+            fl.append("two-builds-of-one-release")
         if case["first"]["name"] == s["name"]:
             fl.append("same-name-analysed-before")
         return fl
@@ -539,7 +552,7 @@ class DeclaredVsExtracted(Stream):
                     region = "pyproject-archive"
                 elif spec.get("cond_dir") and pk == "tar.gz" and not spec.get("tar_dir_entries", True):
                     region = "tar-without-dir-entries"
-                elif pk == "dir" and "spawn-uncaught" in spec.get("prelude", []) and "error" not in got and \
+                elif pk == "dir" and ("spawn-uncaught" in spec.get("prelude", []) or spec.get("latin1")) and "error" not in got and \
                         got["version"] == decl["version"] and got["views"] == decl["views"]:
                     region = "fallback-names-directory"
                 else:
